@@ -47,6 +47,8 @@ def gen(rng: random.Random, tier: str, idx: int) -> dict:
         for _ in range(rng.randint(6, 20)):
             r = rng.random()
             k = rng.choice(KEYS)
+            if r >= 0.36 and rng.random() < 0.12:
+                k = rng.choice(["data/sub", "data", "metadata/inflight"])    # a name that is (or may become) a DIRECTORY, not a key
             if r < 0.3:
                 prog.append(["write", k, rng.randint(0, 40), rng.randrange(256)])
             elif r < 0.36:
@@ -94,7 +96,8 @@ def gen(rng: random.Random, tier: str, idx: int) -> dict:
     exc, burst = rng.choice([("InternalError", 1), ("InternalError", 3), ("InternalError", 5), ("SlowDown", 5),
                              ("InternalError", 6), ("InternalError", 9), ("EndpointConnectionError", 4),
                              ("EndpointConnectionError", 8), ("AccessDenied", 1), ("NoSuchBucket", 1),
-                             ("RequestTimeout", 2)])
+                             ("RequestTimeout", 2), ("ExpiredToken", 1), ("InvalidArgument", 1), ("MethodNotAllowed", 1),
+                             ("NoCredentialsError", 1), ("ParamValidationError", 1), ("Throttling", 3)])
     return {"mode": mode, "op": op, "exc": exc, "burst": burst, "page_size": rng.choice([1, 2, 3, 1000]),
             "offset": rng.choice([0, 0, 1, 2, 3])}
 
@@ -213,9 +216,11 @@ def execute(plan: dict, scratch: str, replay: Optional[dict] = None) -> dict:
                         nontrivial[0] = True
                 if isinstance(a, tuple) and a[0] == "exc" and a[1] == "NotFound":
                     sim.probe("notfound_compared")
-                if isinstance(a, tuple) and a[0] == "exc" and a[1] in ("DirError",) or \
-                        (isinstance(a, tuple) and a[0] == "exc" and a[1].startswith("Error:")):
-                    # local-only structural errors (key is a directory / parent is a file) have no S3 counterpart
+                if isinstance(a, tuple) and a[0] == "exc" and (
+                        (a[1] == "DirError" and step[0] in ("write", "write_json")) or a[1].startswith("Error:")):
+                    # local-only structural errors of WRITES (the key is a directory / its parent is a file) have no S3
+                    # counterpart; reading / sizing / deleting a directory name is a question about a key that does not
+                    # exist and is compared
                     continue
                 if a != b:
                     what = step[0] + (":" + step[1] if step[0] == "list" else "")
@@ -264,7 +269,7 @@ def execute(plan: dict, scratch: str, replay: Optional[dict] = None) -> dict:
             w.store.page_size = plan.get("page_size", 1000)
             # response bodies are fault points too (reset / timeout mid-download) - for transient faults only: a permanent
             # S3 error arrives as an error document, never in the middle of a body
-            w.store.stream_faults = plan["exc"] not in ("AccessDenied", "NoSuchBucket")
+            w.store.stream_faults = plan["exc"] not in PERMANENT
             op = plan["op"]
             expect = _fault_op(s3, op)          # fault-free answer
             t0 = sim.now
@@ -276,7 +281,7 @@ def execute(plan: dict, scratch: str, replay: Optional[dict] = None) -> dict:
             nreq = w.store.requests - n0
             fired = len(sim.fired_log)
             nontrivial[0] = fired > 0
-            permanent = plan["exc"] in ("AccessDenied", "NoSuchBucket")
+            permanent = plan["exc"] in PERMANENT
             burst = plan["burst"]
             if fired == 0:
                 sim.probe("fault_not_reached")      # the operation issued fewer requests than the fault's offset
@@ -324,6 +329,12 @@ def execute(plan: dict, scratch: str, replay: Optional[dict] = None) -> dict:
     res["sched_sig"] = hashlib.sha1(repr({k: plan[k] for k in plan if k not in ("run_seed", "idx")}).encode()).hexdigest()
     w.cleanup()
     return res
+
+
+# errors no retry can fix: the service's "no" on credentials / permissions / the request itself (HTTP 4xx other than
+# throttling and request time-outs), and errors raised by the SDK before anything is sent
+PERMANENT = ("AccessDenied", "NoSuchBucket", "ExpiredToken", "InvalidArgument", "MethodNotAllowed", "NoCredentialsError",
+             "ParamValidationError")
 
 
 def _fault_op(s3, op):
